@@ -129,33 +129,59 @@ Section RtspProofs.
     - destruct (rc_method c =? 0)%Z; [reflexivity|]. destruct (rc_method c =? 1)%Z; reflexivity.
   Qed.
 
-  (* a whole connection: the i-th DESCRIBE that is processed is answered with the
-     description exactly when its own header is valid; processing stops at the first
-     rejected request *)
-  Theorem rtsp_session c : rc_enable c = true -> ~ In colon (rc_user c) ->
-    forall hdrs a i r,
-      nth_error (describe_session md5raw b64dec c a hdrs) i = Some r ->
-      exists h, nth_error hdrs i = Some h /\ (r = DrSdp <-> valid_credentials md5raw b64dec c h).
+  (* handleDescribe never answers "announced" *)
+  Lemma describe_not_announced c a h : snd (handle_describe md5raw b64dec c a h) <> DrAnnounced.
   Proof.
-    intros He Hu. induction hdrs as [|h t IH]; intros a i r H.
-    - destruct i; discriminate.
-    - unfold describe_session in H. cbn [describe_session_gen] in H.
-      pose proof (rtsp_iff c a h He Hu) as Hiff. unfold handle_describe in Hiff.
-      destruct (handle_describe_gen md5raw b64dec true true c a h) as [a1 r1] eqn:E. cbn [snd] in Hiff.
-      destruct r1.
-      + destruct i as [|i]; cbn [nth_error] in *.
-        * inversion H; subst r. exists h. split; [reflexivity|exact Hiff].
-        * apply (IH a1 i r H).
-      + destruct i as [|i]; cbn [nth_error] in *.
-        * inversion H; subst r. exists h. split; [reflexivity|exact Hiff].
-        * apply (IH a1 i r H).
-      + destruct i as [|i]; cbn [nth_error] in *.
-        * inversion H; subst r. exists h. split; [reflexivity|exact Hiff].
-        * apply (IH a1 i r H).
-      + destruct i as [|i]; cbn [nth_error] in *.
-        * inversion H; subst r. exists h. split; [reflexivity|exact Hiff].
-        * destruct i; discriminate.
+    unfold handle_describe, handle_describe_gen. destruct (rc_enable c); [|discriminate].
+    unfold handle_authorized_gen. destruct (negb (is_empty h)).
+    - destruct (parse_authorization_gen b64dec true auth_zero h) as [a1 err].
+      match goal with |- snd (if ?b then _ else _) <> _ => destruct b end; discriminate.
+    - destruct (rc_method c =? 0)%Z; [discriminate|]. destruct (rc_method c =? 1)%Z; discriminate.
   Qed.
+
+  (* a whole command connection, any sequence of DESCRIBE / ANNOUNCE requests (replays
+     included), started in state [has] (= it already carries a session): for the i-th
+     processed request,
+     - if the connection carries a session by then (it did at the start, or an earlier
+       request was admitted) the request closes the connection, whatever its credentials;
+     - otherwise a DESCRIBE is answered with the description exactly when its own header
+       is valid, and an ANNOUNCE is accepted exactly when the observer accepts it;
+     processing stops at the first closed request. *)
+  Theorem rtsp_conn_spec c : rc_enable c = true -> ~ In colon (rc_user c) ->
+    forall reqs a has i r,
+      nth_error (rtsp_conn md5raw b64dec c a has reqs) i = Some r ->
+      exists q, nth_error reqs i = Some q /\
+        if has || existsb is_admitted (firstn i (rtsp_conn md5raw b64dec c a has reqs)) then r = DrClosed
+        else match q with
+             | RqDescribe h => (r = DrSdp <-> valid_credentials md5raw b64dec c h)
+             | RqAnnounce ok => (r = DrAnnounced <-> ok = true)
+             end.
+  Proof.
+    intros He Hu. induction reqs as [|q t IH]; intros a has i r H.
+    - destruct i; discriminate.
+    - cbn [rtsp_conn] in H |- *. destruct has.
+      + destruct i as [|i]; [|destruct i; discriminate]. cbn in H. inversion H; subst r.
+        exists q. split; reflexivity.
+      + cbn [orb]. destruct q as [h|ok].
+        * pose proof (rtsp_iff c a h He Hu) as Hiff. pose proof (describe_not_announced c a h) as Hna.
+          unfold handle_describe in Hiff, Hna.
+          destruct (handle_describe_gen md5raw b64dec true true c a h) as [a1 r1] eqn:E. cbn [snd] in Hiff, Hna.
+          destruct r1; try congruence;
+            (destruct i as [|i]; cbn [nth_error firstn existsb] in *;
+             [inversion H; subst r; exists (RqDescribe h); split; [reflexivity|exact Hiff]|]);
+            try (destruct i; discriminate);
+            try (destruct (IH a1 _ i r H) as (q' & Hq & Hs); exists q'; split; [exact Hq|]; cbn [is_admitted orb] in *; exact Hs).
+        * destruct ok.
+          -- destruct i as [|i]; cbn [nth_error firstn existsb] in *.
+             ++ inversion H; subst r. exists (RqAnnounce true). split; [reflexivity|]. split; reflexivity.
+             ++ destruct (IH a true i r H) as (q' & Hq & Hs). exists q'. split; [exact Hq|]. cbn [is_admitted orb] in *. exact Hs.
+          -- destruct i as [|i]; [|destruct i; discriminate]. cbn in H. inversion H; subst r.
+             exists (RqAnnounce false). split; [reflexivity|]. cbn. split; discriminate.
+  Qed.
+
+  (* once the connection carries a session every further DESCRIBE / ANNOUNCE closes it *)
+  Corollary rtsp_conn_one_session c a q t : rtsp_conn md5raw b64dec c a true (q :: t) = [DrClosed].
+  Proof. reflexivity. Qed.
 
   (* client side: the Basic header lal's own client builds is accepted (base64 round trip as law) *)
   Variable b64enc : bytes -> bytes.
